@@ -105,14 +105,18 @@ Section MgmNode.
   Variable d : dcop.
   Variable stop : Z.
   Variable n : node.
-  Hypothesis Hok : okn d n.
   Let D := dom_of d n.
-  Let E := sel_ev d.
+  (* membership in the domain, under the well-formedness of this node *)
+  Definition InD (v : Z) : Prop := okn d n -> In v D.
+  (* events of this node: labelled n, value in the domain *)
+  Definition mE (e : mev) : Prop :=
+    match e with EvValue x v _ _ => x = n /\ InD v | _ => True end.
+  Let E := mE.
 
   (* A: the current value is a domain value; B: so is the pending new value *)
-  Definition mA (s : mst) : Prop := exists v, m_value s = Some v /\ In v D.
-  Definition mQ (s : mst) : Prop := mA s /\ In (m_newv s) D.
-  Definition mJ2 (s : mst) : Prop := mA s /\ (m_state s = SGain -> In (m_newv s) D).
+  Definition mA (s : mst) : Prop := exists v, m_value s = Some v /\ InD v.
+  Definition mQ (s : mst) : Prop := mA s /\ InD (m_newv s).
+  Definition mJ2 (s : mst) : Prop := mA s /\ (m_state s = SGain -> InD (m_newv s)).
 
   Lemma mQ_J2 s : mQ s -> mJ2 s.
   Proof. intros [H1 H2]. split; auto. Qed.
@@ -128,19 +132,16 @@ Section MgmNode.
     rewrite H2, H3. auto.
   Qed.
 
-  Lemma Dne : D <> [].
-  Proof. exact (proj1 Hok). Qed.
+  Lemma E_value v c k : InD v -> E (EvValue n v c k).
+  Proof. intros H. split; [reflexivity|exact H]. Qed.
 
-  Lemma E_value v c k : In v D -> E (EvValue n v c k).
-  Proof. intros H _. exact H. Qed.
-
-  Lemma value_selection_evs s v c : In v D -> Forall E (snd (value_selection n s v c)).
+  Lemma value_selection_evs s v c : InD v -> Forall E (snd (value_selection n s v c)).
   Proof.
     intros H. unfold value_selection. cbn [snd].
     destruct (option_eqb Z.eqb (m_value s) (Some v)); repeat constructor. apply E_value; auto.
   Qed.
 
-  Lemma value_selection_Q s v c : mQ s -> In v D -> rok mQ E (value_selection n s v c).
+  Lemma value_selection_Q s v c : mQ s -> InD v -> rok mQ E (value_selection n s v c).
   Proof.
     intros [_ Hb] Hv. split; [|apply value_selection_evs; auto].
     unfold value_selection. cbn [fst]. split; [exists v; split; auto|exact Hb].
@@ -160,12 +161,12 @@ Section MgmNode.
     (forall s s', same3 s s' -> P s -> P s') -> P s -> rok P E (send_value d stop n s).
   Proof. intros HP H. split; [eapply HP; [apply send_value_same3|exact H]|apply send_value_evs]. Qed.
 
-  Lemma cbv_spec nv vals c : compute_best_value d n nv = (vals, c) ->
+  Lemma cbv_spec nv vals c : compute_best_value d n nv = (vals, c) -> okn d n ->
     vals <> [] /\ (forall x, In x vals -> In x D).
   Proof.
     unfold compute_best_value.
     destruct (find_arg_optimal (d_max d) (own_cost d n nv) (dom_of d n)) as [vs b] eqn:Ef.
-    intros H. inversion H; subst. eapply sel_find_arg_optimal; eauto. apply Dne.
+    intros H Hok. inversion H; subst. eapply sel_find_arg_optimal; eauto. apply Hok.
   Qed.
 
   (* what _handle_value_message does, for any continuation *)
@@ -180,11 +181,12 @@ Section MgmNode.
     right.
     match goal with |- context [compute_best_value d n ?nv] =>
       destruct (compute_best_value d n nv) as [vals vc] eqn:Ec end.
-    apply cbv_spec in Ec. destruct Ec as [Hne Hin].
+    pose proof (cbv_spec _ _ _ Ec) as Hc.
     match goal with |- context [if ?b then (let '(x, o) := draw ?oo in _) else _] =>
       destruct b; [destruct (draw oo) as [x o]|] end.
     - eexists. eexists. split; [|split; [|reflexivity]]; [|reflexivity].
-      split; [exists cv; split; auto|]. cbn. apply Hin. apply sel_choose_In. exact Hne.
+      split; [exists cv; split; auto|]. cbn. intros Hok. destruct (Hc Hok) as [Hne Hin].
+      apply Hin. apply sel_choose_In. exact Hne.
     - eexists. eexists. split; [|split; [|reflexivity]]; [|reflexivity].
       split; [exists cv; split; auto|]. cbn. unfold cur_value. cbn. rewrite Hcv. exact Hcd.
   Qed.
@@ -283,14 +285,14 @@ Section MgmNode.
   (* the node invariant: not started yet, or J2 *)
   Definition mJ (s : mst) : Prop := (m_value s = None /\ m_state s = SStarting) \/ mJ2 s.
 
-  Lemma mJ_newv s : mJ s -> m_state s = SGain -> In (m_newv s) D.
+  Lemma mJ_newv s : mJ s -> m_state s = SGain -> InD (m_newv s).
   Proof. intros [[_ H]|[_ H]]; [rewrite H; discriminate|exact H]. Qed.
 
-  Lemma isolated_choice_In : In (fst (isolated_choice d n)) D.
+  Lemma isolated_choice_In : InD (fst (isolated_choice d n)).
   Proof.
-    unfold isolated_choice. destruct (cons_of d n).
-    - apply sel_optimal_cost_value. apply Dne.
-    - destruct (compute_best_value d n []) as [vals best] eqn:Ec. apply cbv_spec in Ec.
+    intros Hok. unfold isolated_choice. destruct (cons_of d n).
+    - apply sel_optimal_cost_value. apply Hok.
+    - destruct (compute_best_value d n []) as [vals best] eqn:Ec. apply cbv_spec in Ec; [|exact Hok].
       destruct Ec as [Hne Hin]. cbn [fst]. apply Hin. apply sel_hd_In. exact Hne.
   Qed.
 
@@ -306,11 +308,11 @@ Section MgmNode.
     - assert (Hv0 : forall v0 o, (match v_init (var_of d n) with
                            | Some v => (v, m_orc s)
                            | None => let '(x, o) := draw (m_orc s) in (choose (dom_of d n) x 0, o)
-                           end) = (v0, o) -> In v0 D).
-      { intros v0 o. destruct (v_init (var_of d n)) as [v|] eqn:Ei.
+                           end) = (v0, o) -> InD v0).
+      { intros v0 o H0 Hok. revert H0. destruct (v_init (var_of d n)) as [v|] eqn:Ei.
         - intros H; inversion H; subst. apply (proj2 Hok). exact Ei.
         - destruct (draw (m_orc s)) as [x o']. intros H; inversion H; subst.
-          apply sel_choose_In. apply Dne. }
+          apply sel_choose_In. apply Hok. }
       destruct (match v_init (var_of d n) with
                 | Some v => (v, m_orc s)
                 | None => let '(x, o) := draw (m_orc s) in (choose (dom_of d n) x 0, o)
@@ -340,18 +342,32 @@ Section MgmNode.
   Qed.
 End MgmNode.
 
-Definition mgm_J (d : dcop) (n : node) (s : mst) : Prop := okn d n -> mJ d n s.
+Lemma mE_sel_ev d n evs : Forall (mE d n) evs -> Forall (sel_ev d) evs.
+Proof.
+  apply Forall_impl. intros [x v c k| | |]; cbn; auto. intros [-> H]. exact H.
+Qed.
 
 Lemma mgm_net_inv d stop orc sched :
-  good (mgm_J d) (fun _ _ _ => True) (fst (run (mgm_proto d stop orc) sched))
+  good (mJ d) (fun _ _ _ => True) (fst (run (mgm_proto d stop orc) sched))
   /\ Forall (sel_ev d) (snd (run (mgm_proto d stop orc) sched)).
 Proof.
   apply net_inv.
-  - intros n _. left. split; reflexivity.
+  - intros n. left. split; reflexivity.
   - intros n s s' outs evs HJ Hs. cbn [p_start mgm_proto] in Hs.
-    split; [|split].
-    + intros Hok. pose proof (mgm_start_ok d stop n Hok s (HJ Hok)) as [H _]. rewrite Hs in H. exact H.
-    + apply Forall_trivial.
-    + admit.
-  - admit.
-Admitted.
+    pose proof (mgm_start_ok d stop n s HJ) as [H1 H2]. rewrite Hs in H1, H2.
+    split; [exact H1|split; [apply Forall_trivial|apply mE_sel_ev with (n := n); exact H2]].
+  - intros n s src m s' outs evs HJ _ Hs. cbn [p_recv mgm_proto] in Hs.
+    pose proof (mgm_recv_ok d stop n s src m HJ) as [H1 H2]. rewrite Hs in H1, H2.
+    split; [exact H1|split; [apply Forall_trivial|apply mE_sel_ev with (n := n); exact H2]].
+Qed.
+
+(* per-node form: only node n has to be well-formed *)
+Theorem mgm_selects_in_domain_node : forall d stop orc sched n, okn d n ->
+  (forall v c k, In (EvValue n v c k) (snd (run (mgm_proto d stop orc) sched)) -> In v (dom_of d n)) /\
+  (forall v, m_value (w_st (nodes (fst (run (mgm_proto d stop orc) sched)) n)) = Some v -> In v (dom_of d n)).
+Proof.
+  intros d stop orc sched n Hok. destruct (mgm_net_inv d stop orc sched) as [[G _] F]. split.
+  - intros v c k Hin. rewrite Forall_forall in F. exact (F _ Hin Hok).
+  - intros v Hv. destruct (G n) as [[H _]|[[v' [H1 H2]] _]]; [congruence|].
+    rewrite H1 in Hv. inversion Hv; subst. exact (H2 Hok).
+Qed.
